@@ -230,6 +230,13 @@ class LocalFunc:
         self.defaults = defaults or {}        # evaluated when the def statement runs
         self.cached = cached                  # decorated with functools.lru_cache / cache
         self.memo: list[tuple[Any, Any, Any]] = []
+        self.attrs: dict[str, Any] = {}       # function attributes set later (f.__doc__ = ..., setattr(f, ...))
+
+
+class BoundWrapper:
+    """A wrapper closure (what a decorator returned for a method) bound to an instance."""
+    def __init__(self, obj: Any, func: "LocalFunc") -> None:
+        self.obj, self.func = obj, func
 
 
 _CMP: dict[type, Callable[[Any, Any], bool]] = {
@@ -479,6 +486,7 @@ class Interp:
             **{f"re.{c}": getattr(_re2, c) for c in ("IGNORECASE", "I", "MULTILINE", "M", "DOTALL", "S", "VERBOSE", "X",
                                                      "ASCII", "A", "UNICODE", "U")},
             "operator.methodcaller": methodcaller,
+            "sys.getrecursionlimit": lambda: 1000,
             "contextlib.suppress": lambda *excs: _Suppress({(e.ci.name if isinstance(e, ClassRef) else
                                                              (e[1] if isinstance(e, tuple) else getattr(e, "name", str(e)).split(".")[-1]))
                                                             for e in excs}),
@@ -944,6 +952,8 @@ class Interp:
                 self.setattr_obj(obj, t.attr, v, loc(fi.unit.path, t) if fi else "")
             elif is_native(obj):
                 setattr(obj, t.attr, v)
+            elif isinstance(obj, (LocalFunc, FuncRef, BoundMethod)):
+                obj.attrs[t.attr] = v
             elif isinstance(obj, ClassRef):
                 GLOBAL_STATE["class_attrs"][(obj.ci.qual, t.attr)] = v     # visible process-wide
                 obj.ci.class_attrs.setdefault(t.attr, ast.Constant(value=None))
@@ -1487,6 +1497,10 @@ class Interp:
                         return FuncRef(m)
                     if m.is_classmethod():
                         return BoundMethod(ClassRef(ci), m, self.decorated_attrs(m))
+                    if m.node.decorator_list:
+                        w_ = self.wrapper_of(m)
+                        if isinstance(w_, LocalFunc):
+                            return BoundWrapper(obj, w_)       # the name is bound to what the decorator returned
                     return BoundMethod(obj, m, self.decorated_attrs(m))
                 for c in self.pm.mro(ci):
                     if attr in c.class_attrs:
@@ -1521,6 +1535,17 @@ class Interp:
             if attr == "__name__":
                 return ci.name
             raise AnalysisError("ABSINT", f"unknown class attribute {ci.name}.{attr}", where)
+        if isinstance(obj, (LocalFunc, BoundWrapper)):
+            lf = obj.func if isinstance(obj, BoundWrapper) else obj
+            if attr in lf.attrs:
+                return lf.attrs[attr]
+            if attr in ("__name__", "__qualname__"):
+                return lf.node.name
+            if attr == "__doc__":
+                return ast.get_docstring(lf.node, clean=False)
+            if attr == "__wrapped__":
+                raise AbsRaise("AttributeError: function has no attribute __wrapped__", where)
+            raise AbsRaise(f"AttributeError: function has no attribute {attr}", where)
         if isinstance(obj, (BoundMethod, FuncRef)):
             if attr == "__name__":
                 return obj.fi.name
@@ -1646,6 +1671,8 @@ class Interp:
             return self.eval(f.node.body, e2, f.fi)
         if isinstance(f, LocalFunc):
             return self.call_local(f, args, kwargs)
+        if isinstance(f, BoundWrapper):
+            return self.call_local(f.func, [f.obj] + list(args), kwargs)
         if isinstance(f, ClassRef):
             hook = self.native.get(f"new:{f.ci.name}")
             if hook is not None:
@@ -1976,10 +2003,13 @@ class Interp:
                 return self.pm.has_cls(v._cls) and self.pm.method(self.pm.cls(v._cls), a) is not None
             if isinstance(v, (BoundMethod, FuncRef)):
                 return a in v.attrs or a in ("__name__", "__doc__")
+            if isinstance(v, (LocalFunc, BoundWrapper)):
+                lf_ = v.func if isinstance(v, BoundWrapper) else v
+                return a in lf_.attrs or a in ("__name__", "__doc__", "__qualname__")
             return False
         if name == "setattr":
             v, a, val = args
-            if isinstance(v, (BoundMethod, FuncRef)):
+            if isinstance(v, (BoundMethod, FuncRef, LocalFunc)):
                 v.attrs[a] = val
                 return None
             if isinstance(v, AObj):
@@ -2007,7 +2037,7 @@ class Interp:
                 return sorted(names)
             raise AnalysisError("ABSINT", "dir() outside fragment", where)
         if name == "callable":
-            return isinstance(args[0], (BoundMethod, FuncRef, Lambda, LocalFunc, ClassRef))
+            return isinstance(args[0], (BoundMethod, BoundWrapper, FuncRef, Lambda, LocalFunc, ClassRef))
         if name == "float":
             try:
                 return float(args[0])
@@ -2453,7 +2483,8 @@ _STR_METHODS = {"translate", "expandtabs", "center", "ljust", "rjust", "swapcase
                 "partition", "rpartition", "splitlines", "zfill", "isidentifier", "isupper",
                 "islower", "isnumeric", "removeprefix", "removesuffix"}
 _MISSING = object()
-_PURE_MODULES = ("textwrap", "string", "keyword", "unicodedata", "html", "shlex", "math", "itertools", "fnmatch", "posixpath")
+_PURE_MODULES = ("textwrap", "string", "keyword", "unicodedata", "html", "shlex", "math", "itertools", "fnmatch", "posixpath",
+                 "statistics", "cmath", "bisect", "heapq")
 _BUILTINS = {"object", "slice", "NotImplemented", "map", "filter", "divmod", "pow", "repr", "type", "iter", "vars", "open", "setattr", "getattr", "dir", "round", "print", "reversed", "hash", "id", "len", "any", "all", "sum", "next", "isinstance", "list", "tuple", "set", "sorted",
              "str", "bool", "int", "min", "max", "enumerate", "zip", "range", "hasattr",
              "callable", "float", "abs", "dict", "frozenset", "cast"}
